@@ -71,9 +71,8 @@ def decompS (ext : Ext) (s : Strm) : Strm :=
   | .ok s' => s'
   | _ => s
 
-/-- decompressing a stream never changes its plain content — unless its `Filter` is the EMPTY array, in which case
-`decompressed_content` is the empty string and `decompress` stores it (see `decompress_empty_filter_witness'`) -/
-theorem decompS_plain' (ext : Ext) (s : Strm) (hn : s.dict.KeysNodup) (hne : streamFilters s.dict ≠ some []) :
+/-- decompressing a stream never changes its plain content (an EMPTY `Filter` array included, since lopdf 70e5e99) -/
+theorem decompS_plain' (ext : Ext) (s : Strm) (hn : s.dict.KeysNodup) :
     getPlainContent ext (decompS ext s) = getPlainContent ext s := by
   unfold decompS
   cases hd : decompress ext s with
@@ -88,7 +87,7 @@ theorem decompS_plain' (ext : Ext) (s : Strm) (hn : s.dict.KeysNodup) (hne : str
     | none => simp [decompressedContent, hf] at hc
     | some fs =>
       cases fs with
-      | nil => exact absurd hf hne
+      | nil => simp [decompressedContent, hf]
       | cons f fs => rfl
 
 theorem compress_keysNodup' (deflate : Bytes → Bytes) (s : Strm) (hn : s.dict.KeysNodup) :
@@ -98,22 +97,11 @@ theorem compress_keysNodup' (deflate : Bytes → Bytes) (s : Strm) (hn : s.dict.
   · rw [h]; simp only [setContent]
     exact Dict.keysNodup_set_c09 _ _ _ (Dict.keysNodup_set_c09 _ _ _ (Dict.keysNodup_remove_c09 _ _ hn))
 
-theorem compress_filters_ne_nil' (deflate : Bytes → Bytes) (s : Strm) (hne : streamFilters s.dict ≠ some []) :
-    streamFilters (compress deflate s).dict ≠ some [] := by
-  rcases compress_cases deflate s with h | ⟨_, _, h⟩
-  · rw [h]; exact hne
-  · rw [h]
-    have n1 : K_LENGTH ≠ K_FILTER := by decide
-    have : (setContent { s with dict := (s.dict.remove K_DECODEPARMS).set K_FILTER (.name F_FLATE) } (deflate s.content)).dict.get K_FILTER
-        = some (.name F_FLATE) := by
-      simp only [setContent]; rw [Dict.get_set_other_c09 _ _ _ _ n1, Dict.get_set_same_c09]
-    simp [streamFilters, this]
-
 /-- **compress then decompress** restores the plain content of every stream -/
 theorem compress_decompress_plain' (ext : Ext) (deflate : Bytes → Bytes)
     (hfl : ∀ x, ext.inflate (deflate x) = x) (hne : ∀ x, deflate x ≠ [])
-    (s : Strm) (hn : s.dict.KeysNodup) (hf : streamFilters s.dict ≠ some []) :
+    (s : Strm) (hn : s.dict.KeysNodup) :
     getPlainContent ext (decompS ext (compress deflate s)) = getPlainContent ext s := by
-  rw [decompS_plain' ext _ (compress_keysNodup' deflate s hn) (compress_filters_ne_nil' deflate s hf)]
+  rw [decompS_plain' ext _ (compress_keysNodup' deflate s hn)]
   exact compress_rt' ext deflate hfl hne s hn
 end Lopdf
